@@ -6,13 +6,19 @@
    What is proved for every input: (1) lengths, end to end through the whole
    model of tex2txt(); (2) range for everything in front of and behind the
    expander -- scanner, error marks, get_txt_pos, phrase replacement, the
-   multi-language split, the +1 of the wrapper.  What is not proved: that the
-   expander (coq/model/{Parser,Expand,Math,Exec}.v) keeps tok_ok; hypothesis
-   of C01_range_behind_expander, checked at run time on every generated case
-   by harness/props/c01.py. *)
+   multi-language split, the +1 of the wrapper.  Through the expander the
+   range is proved for the document class of C02
+   (C01_range_documents_of_the_class): for a source text accepted by
+   doc_in_class, with any packages, replacements, single- or multi-language,
+   every position tex2txt() returns lies in 1 .. len(source) -- the main loop
+   and the action-line pass create no position (exec_args_R, rpal_R).  What is
+   not proved: that the expander keeps the positions inside the text for
+   documents outside the class (coq/model/{Parser,Expand,Math,Exec}.v);
+   hypothesis of C01_range_behind_expander, checked at run time on every
+   generated case by harness/props/c01.py. *)
 From YV Require Import PyBase ShellMap Token Utils Scanner PState Parser Exec
                        Replace ReplaceProofs Ml MlProofs TokOk ScanOk Tex2txt
-                       Tex2txtProofs Catalogue.
+                       Tex2txtProofs ExecPlain ExecRange ClassDecide ClassRange Catalogue.
 Open Scope Z_scope.
 
 (* (1) whatever the options and the input, every returned text -- the single
@@ -87,6 +93,38 @@ Theorem C01_range_behind_expander :
   result_ok (fun p => 1 <= p <= n) (to_result out).
 Proof. exact run_tex2txt_range. Qed.
 Print Assumptions C01_range_behind_expander.
+
+(* (2h) end to end for the document class: no hypothesis on the expander *)
+Theorem C01_range_documents_of_the_class :
+  forall is_word files lang multi simple mods latex repl thresh fuel out,
+  run_tex2txt py_tables is_word files lang multi simple mods [] latex [] repl false
+              thresh fuel = Ok out ->
+  (forall st,
+     init_parser py_tables (fun f => assoc f files) fuel
+                 (init_state py_tables lang multi simple true) (t_builtin py_tables) mods = Ok st ->
+     doc_in_class py_tables (upd_unknowns (upd_extracted st []) []) latex = true) ->
+  names_ok py_tables latex = true ->
+  result_ok (fun p => 1 <= p <= zlen latex) (to_result out).
+Proof.
+  exact (fun is_word files lang multi simple mods latex repl thresh fuel out =>
+           tex2txt_class_range py_tables is_word files lang multi simple mods latex repl thresh
+                               fuel out (eq_refl true) C01_specials_wf (eq_refl true)).
+Qed.
+Print Assumptions C01_range_documents_of_the_class.
+
+(* the premises on a concrete document (no packages loaded) *)
+Example C01_class_example :
+  let latex := [65; 32; 92; 102; 111; 111; 123; 98; 125; 32; 45; 45; 32; 99; 32; 37; 32; 100; 10; 101]%N in
+  match init_parser py_tables (fun _ => None) 2000
+                    (init_state py_tables [101; 110]%N false false true) (t_builtin py_tables) [] with
+  | Ok st => doc_in_class py_tables (upd_unknowns (upd_extracted st []) []) latex
+  | _ => false end = true /\
+  names_ok py_tables latex = true /\
+  match run_tex2txt py_tables (fun _ => false) [] [101; 110]%N false false [] [] latex [] None false
+                    3 2000 with
+  | Ok o => match to_result o with TSingle t p => Some p | _ => None end
+  | _ => None end = Some [1; 2; 8; 10; 11; 13; 14; 15; 20].
+Proof. vm_compute. repeat split. Qed.
 
 (* the premises are met by real tokens: the scanner's output on a small text *)
 Example C01_nonvacuous :
